@@ -227,13 +227,15 @@ def run_case(case):
         if p in (0.0, 1.0):
             continue
         root = a + p * (b - a)
-        for which in ('min-above-root', 'max-below-root'):
-            # bracket entirely on one side of the root
+        for which in ('min-above-root', 'max-below-root', 'reversed'):
+            # bracket entirely on one side of the root, or with its ends exchanged (f(xmin) > 0 > f(xmax))
             if which == 'min-above-root':
                 lo, hi = root + 0.25 * (b - root), b
-            else:
+            elif which == 'max-below-root':
                 lo, hi = a, a + 0.75 * (root - a)
-            if not (lo < hi):
+            else:
+                lo, hi = b, a
+            if which != 'reversed' and not (lo < hi):
                 continue
             for pos in ('alone', 0, 2, 4):
                 lanes = [lane] if pos == 'alone' else valid[:pos] + [lane] + valid[pos:]
